@@ -1,9 +1,10 @@
 (* C08 - reported status is truthful: live while running, final afterwards, never stuck.
    This file holds only property theorems (closed by `exact`), Print Assumptions and Examples.
    Model: Status/Model.v (Scheduler.Status clause by clause; the agent's persisted snapshot sequence as a transition
-   system over an abstract step scheduler - snapshot goroutines with separate compute / append labels, Close's compaction;
+   system over an abstract step scheduler - snapshot threads under statusLock with separate lock / read / copy / append labels,
+   Close's compaction;
    client.GetLatestStatus; the daemon's Start guard; the socket as absent / stale / live).
-   The model follows /repo after the repairs b9e9fa2 (F8a) and 3aa388e (F7a); F8b/F8c are not repaired and stay in the model.
+   The model follows /repo after the repairs b9e9fa2 (F8a), 3aa388e (F7a), 7f2c2d0 (F8b/F8c) and ac08004 (F5c).
    Every theorem quantifies over all table sizes n, socket pre-states s0 and label sequences ls; `exec ... ls = Some st`
    for an arbitrary ls means: st is the state at an arbitrary kill point of an arbitrary interleaving.
    Tie to the code: tools/props/C08.py (in-process agent runs: persisted lines and live answers against Status/Check.v;
@@ -30,31 +31,40 @@ Example C08_live_nonvacuous : exists st,
   in_progress st = true /\ map nst (s_tbl (fst (report 2 st))) = [NSuccess; NNone] /\ s_ov (fst (report 2 st)) = ORunning.
 Proof. exact live_nonvacuous. Qed.
 
-(* FULL STATEMENT (false of the code, F8b/F8c not repaired - see C08_final_refuted):
-     forall ls st, exec (init n s0) ls = Some st -> mp st = MClosed -> persisted st = PSnap (snap_of (sc st)).
-   After a complete run the persisted status is the final state - provided no snapshot computed before Schedule returned
-   was still waiting for the writer's lock when it returned (decidable premise on the execution: quiet_at_return). *)
-Theorem C08_final_partial : forall n s0 ls st,
+(* C08_final - the full statement (since fix 7f2c2d0; before it false when a snapshot computed earlier was appended after the
+   final status: findings F8b/F8c, fixed).  After a complete run the persisted status is the final state of the run and that
+   is what is reported.  No premise. *)
+Theorem C08_final : forall n s0 ls st,
   exec (init n s0) ls = Some st ->
-  quiet_at_return (init n s0) ls = true ->
   mp st = MClosed ->
   persisted st = PSnap (snap_of (sc st)) /\ report n st = (correct (snap_of (sc st)), false).
-Proof. exact final_partial. Qed.
-Print Assumptions C08_final_partial.
+Proof. exact final. Qed.
+Print Assumptions C08_final.
 
-Example C08_final_premise_satisfiable : exists ls st,
-  exec (init 2 SockAbsent) ls = Some st /\ quiet_at_return (init 2 SockAbsent) ls = true /\ mp st = MClosed /\
-  s_ov (fst (report 2 st)) = OSuccess.
-Proof. exact final_partial_premise_satisfiable. Qed.
+(* before fix 7f2c2d0 the prefix below continued with the main thread's final write and then the stale `running` snapshot of the
+   first-status goroutine (the _refuted witness of F8b).  Now that goroutine holds statusLock: the main thread must wait ... *)
+Example C08_final_former_witness_blocked :
+  (exists st, exec (init 2 SockAbsent) f8b_prefix = Some st /\ locked st = true) /\
+  exec (init 2 SockAbsent) (f8b_prefix ++ [LFinalLock]) = None /\
+  exec (init 2 SockAbsent) (f8b_prefix ++ [LCLock]) = None.
+Proof. exact f8b_main_must_wait. Qed.
 
-(* F8b: a run in which every step succeeded ends with the persisted status `running` (reported as failed) *)
-Theorem C08_final_refuted : exists ls st,
-  exec (init 2 SockAbsent) ls = Some st /\ mp st = MClosed /\
-  all_succeed (tbl (sc st)) = true /\ s_ov (snap_of (sc st)) = OSuccess /\
-  persisted st <> PSnap (snap_of (sc st)) /\
-  s_ov (fst (report 2 st)) = OError /\ map nst (s_tbl (fst (report 2 st))) = [NSuccess; NRunning].
-Proof. exact final_refuted. Qed.
-Print Assumptions C08_final_refuted.
+(* ... and the run ends with its final state persisted and reported (the hypotheses of C08_final are satisfiable) *)
+Example C08_final_former_witness : exists st,
+  exec (init 2 SockAbsent)
+    (f8b_prefix ++ [LFsAppend; LCLock; LCOv; LCTbl; LCAppend; LFinalLock; LFinalCompute; LFinalAppend; LFinish; LUnbind;
+                    LCompactRead; LCompactCreate; LCompactWrite; LCompactUnlink; LCloseWriter]) = Some st /\
+  mp st = MClosed /\ persisted st = PSnap (snap_of (sc st)) /\ s_ov (fst (report 2 st)) = OSuccess /\
+  map (fun x => s_ov x) (file st) = [ONone; ORunning; ORunning; OSuccess; OSuccess].
+Proof. exact f8b_trace_now_final. Qed.
+
+(* a snapshot goroutine that comes after the final status appends nothing *)
+Example C08_late_snapshot_not_appended : exists st st',
+  exec (init 1 SockAbsent)
+    [LOpen; LWriteS0; LBind; LSched AStart; LSched (ALaunch 0); LSched (AEnd 0 true); LSched ADoneSend; LNotify; LSched AWait;
+     LSched AReturn; LFinalLock; LFinalCompute; LFinalAppend] = Some st /\
+  exec st [LCLock; LCOv; LCTbl; LCAppend; LFsWake; LFsOv; LFsTbl; LFsAppend] = Some st' /\ file st' = file st /\ length (file st) = 2.
+Proof. exact late_snapshot_not_appended. Qed.
 
 (* C08_crash - the full statement (since fix b9e9fa2; before it the second half was false: finding F8a, fixed).
    After a kill at ANY point (= for every prefix of every execution) the reported status is not `running`, and it is
@@ -94,8 +104,8 @@ Proof. exact daemon_after_open. Qed.
 (* a kill inside Close's compaction between the creation of the twin and its first write: the complete original is reported *)
 Example C08_kill_inside_compaction : exists st,
   exec (init 1 SockAbsent)
-    [LOpen; LWriteS0; LBind; LSched AStart; LSched (ALaunch 0); LSched (AEnd 0 true); LSched ADoneSend; LNotify; LCOv; LCTbl; LCAppend;
-     LSched AWait; LSched AReturn; LFinalCompute; LFinalAppend; LFinish; LUnbind; LCompactRead; LCompactCreate] = Some st /\
+    [LOpen; LWriteS0; LBind; LSched AStart; LSched (ALaunch 0); LSched (AEnd 0 true); LSched ADoneSend; LNotify; LCLock; LCOv; LCTbl; LCAppend;
+     LSched AWait; LSched AReturn; LFinalLock; LFinalCompute; LFinalAppend; LFinish; LUnbind; LCompactRead; LCompactCreate] = Some st /\
   cfile st = Some [] /\ orig st = true /\
   report 1 (after_kill st) = (snap_of (sc st), false) /\ s_ov (snap_of (sc st)) = OSuccess.
 Proof. exact kill_inside_compaction. Qed.
@@ -128,3 +138,9 @@ Theorem C08_snapshot_overall : forall n s0 ls st,
   forall x, In x (snaps st) -> exists s1, s_ov x = ov_of s1 /\ tbl_reachb (tbl s1) (s_tbl x) = true.
 Proof. exact snapshot_overall. Qed.
 Print Assumptions C08_snapshot_overall.
+
+(* Once the final status has been written it is, and stays, the last line of the history file. *)
+Theorem C08_final_line_is_last : forall n s0 ls st,
+  exec (init n s0) ls = Some st -> 5 <= mrank (mp st) <= 10 -> last_line (file st) = Some (snap_of (sc st)).
+Proof. exact final_line_is_last. Qed.
+Print Assumptions C08_final_line_is_last.
